@@ -1,0 +1,14 @@
+//go:build verif
+
+package app
+
+// Hooks for the deterministic-simulation harness (build tag "verif"). Not part of the shipped binary.
+
+// SimYield, when set, is called at the check-then-act windows marked with simYield(point).
+var SimYield func(point string)
+
+func simYield(point string) {
+	if f := SimYield; f != nil {
+		f(point)
+	}
+}
